@@ -450,6 +450,9 @@ func Value(t *rapid.T, ts spec.TypeSpec, o ValueOpts) spec.ValueSpec {
 			v.Fields = append(v.Fields, Value(t, f.T, o))
 		}
 	default:
+		if ck, ok := spec.Custom[ts.K]; ok {
+			return Value(t, spec.T(ck.Base), o)
+		}
 		panic("gen: no value generator for kind " + ts.K)
 	}
 	return v
